@@ -151,6 +151,21 @@ type esEntry struct {
 	V EsVal `@@`
 }
 
+// a union declared on an unnamed interface type
+type esAnonMemberA struct {
+	A string `"a" @Ident`
+}
+type esAnonMemberB struct {
+	B string `"b" @Int`
+}
+
+func (esAnonMemberA) esM() {}
+func (esAnonMemberB) esM() {}
+
+type esAnonIface struct {
+	Items []interface{ esM() } `@@*`
+}
+
 var staticEbnf = map[string]struct {
 	root string
 	mk   func() (gengram.Built, error)
@@ -160,6 +175,9 @@ var staticEbnf = map[string]struct {
 	"static-anon-rec":        {"EsAnonRec", func() (gengram.Built, error) { return participle.Build[esAnonRec]() }},
 	"static-unicode-names":   {"EsGröße", func() (gengram.Built, error) { return participle.Build[EsGröße]() }},
 	"static-parseable-twice": {"EsTransfer", func() (gengram.Built, error) { return participle.Build[esTransfer]() }},
+	"static-anon-iface": {"EsAnonIface", func() (gengram.Built, error) {
+		return participle.Build[esAnonIface](participle.Union[interface{ esM() }](esAnonMemberA{}, esAnonMemberB{}))
+	}},
 	"static-two-custom": {"EsEntry", func() (gengram.Built, error) {
 		p, err := participle.Build[esEntry](participle.ParseTypeWith(parseEsKey), participle.ParseTypeWith(parseEsVal))
 		if err != nil {
